@@ -6,6 +6,7 @@ import (
 	"errors"
 	"fmt"
 	"os"
+	"os/exec"
 	"path/filepath"
 	"strings"
 	"syscall"
@@ -30,12 +31,91 @@ func (allowAll) CheckWrite(string) ptracer.TraceAction   { return ptracer.TraceA
 func (allowAll) CheckStat(string) ptracer.TraceAction    { return ptracer.TraceAllow }
 func (allowAll) CheckSyscall(string) ptracer.TraceAction { return ptracer.TraceAllow }
 
+// launcherHelper is the launching process that is going to be killed: it starts the target with a callback that
+// reports the pid and then never returns.
+func launcherHelper() {
+	marker := os.Getenv("VERIF_C07_MARKER")
+	r := &forkexec.Runner{Args: []string{hx.Target(), "mark", marker}, Env: []string{}}
+	if os.Getenv("VERIF_C07_USERNS") == "1" {
+		r.CloneFlags = unix.CLONE_NEWUSER
+	}
+	r.SyncFunc = func(pid int) error {
+		fmt.Printf("%d\n", pid)
+		os.Stdout.Sync()
+		select {}
+	}
+	r.Start()
+	os.Exit(3)
+}
+
+func launcherDeath(c map[string]any, scratch string) map[string]any {
+	marker := filepath.Join(scratch, fmt.Sprintf("dmarker%d", hx.Int(c["id"])))
+	os.Remove(marker)
+	unix.Prctl(unix.PR_SET_CHILD_SUBREAPER, 1, 0, 0, 0)
+	self, _ := os.Readlink("/proc/self/exe")
+	cmd := exec.Command(self)
+	u := "0"
+	if c["userns"] == true {
+		u = "1"
+	}
+	cmd.Env = append(os.Environ(), "VERIF_C07_HELPER=1", "VERIF_C07_MARKER="+marker, "VERIF_C07_USERNS="+u)
+	pr, pw, _ := os.Pipe()
+	cmd.Stdout = pw
+	if err := cmd.Start(); err != nil {
+		return map[string]any{"harness_err": err.Error()}
+	}
+	pw.Close()
+	var pid int
+	if _, err := fmt.Fscan(pr, &pid); err != nil || pid <= 0 {
+		cmd.Process.Kill()
+		cmd.Wait()
+		return map[string]any{"harness_err": "no pid from the helper"}
+	}
+	pr.Close()
+	out := map[string]any{}
+	exe, _ := os.Readlink(fmt.Sprintf("/proc/%d/exe", pid))
+	out["blocked_in_launcher_image"] = exe == self
+	time.Sleep(time.Duration(hx.Int(c["delay_ms"])) * time.Millisecond)
+	cmd.Process.Kill() // the launcher dies inside the callback: no ack was sent, nobody kills the child
+	cmd.Wait()
+	var ws syscall.WaitStatus
+	deadline := time.Now().Add(5 * time.Second)
+	exited := false
+	for time.Now().Before(deadline) {
+		wpid, err := syscall.Wait4(pid, &ws, syscall.WNOHANG, nil)
+		if wpid == pid {
+			exited = true
+			break
+		}
+		if err != nil && err != syscall.EINTR {
+			out["wait_err"] = err.Error()
+			break
+		}
+		time.Sleep(2 * time.Millisecond)
+	}
+	if !exited {
+		syscall.Kill(pid, syscall.SIGKILL)
+		syscall.Wait4(pid, &ws, 0, nil)
+	}
+	out["exited"], out["wait_status"] = exited, int(ws)
+	_, merr := os.Stat(marker)
+	out["target_ran"] = merr == nil
+	os.Remove(marker)
+	return out
+}
+
 func main() {
+	if os.Getenv("VERIF_C07_HELPER") == "1" {
+		launcherHelper()
+	}
 	hx.Init()
 	scratch := os.Getenv("VERIF_SCRATCH")
 	self, _ := os.Readlink("/proc/self/exe")
 	hx.Cases(func(c map[string]any) map[string]any {
 		fault := c["fault"].(string)
+		if fault == "launcher_death" {
+			return launcherDeath(c, scratch)
+		}
 		if fault == "ptrace_runner" {
 			// a launch step that fails under the ptrace runner (whose launcher returns the pid before exec)
 			pr := &ptrace.Runner{Args: []string{hx.Target(), "exit", "0"}, Env: []string{}, WorkDir: "/nonexistent-workdir",
